@@ -610,6 +610,8 @@ def record_name_tables(ctx, prog, rule):
                 else:
                     break
     ok = w == r and len(w) == 20
+    if not ok and (not r or not w) and len(w) in (0, 20) and len(r) in (0, 20):
+        ok = None       # one direction is not spelled as a match on constants at all (e.g. a lookup table): not judged
     ctx.ob(rule, "record-name-tables", ok, "RecordName -> tag (%d) and tag -> RecordName (%d) are inverse tables" % (len(w), len(r)) + ("" if ok else ": %s vs %s" % (sorted(set(w.items()) ^ set(r.items()))[:6], "")))
 
 
